@@ -7,6 +7,9 @@ import json, os, re, glob, subprocess
 ROOT = os.path.join(os.path.dirname(os.path.abspath(__file__)), "..", "seeded")
 
 STRENGTHENED = {
+    "C09-4": "missed at first: the simulated devices only produced consistent DC support flags; C09 got devices without DC whose register 0x0008 nevertheless has the enhanced-sync or the 64-bit flag set",
+    "C11-4": "missed at first: a tolerated unanswered datagram (counter rewritten to 0) was only required not to yield data; C11 now requires the result of the operation - for the transitions including the sync manager / FMMU registers programmed - to equal the healthy one",
+    "C16-3": "missed at first: one perturbation per reply; C16 got the pair family 'segment data length 0..=8 x unused-bytes field 0..=7' for last and non-last segments",
     "C10-3": "missed at first: every fall-back in the simulator was driven by the device's own status reads, so a member that is no longer polled never fell back, and a success assembled from reports of different rounds looked legitimate. C10 got a fall-back that happens two datagrams later whoever is addressed, a fall-back after one read, and the oracle 'the last status reads before the call returned are one report of the requested state per member'",
     "C10-4": "missed by C10 at first (C07 caught it: its cycle harness checks the state list for every frame size); C10 now runs C07's cycle harness for groups of 2, 5 and 8 devices with frames carrying 2, 3 or all status reads and judges the state-list clauses",
     "C15-4": "missed at first: the stale-mailbox case used equal mailbox sizes, and the simulated CoE server overwrote a full send mailbox with the next reply; now both mailbox size orders are covered and replies are queued until the master has read the mailbox to its last byte",
@@ -31,6 +34,7 @@ PORTED = {
     "C19-1": "the agent's worktree predated fix cf974800; same two-line move re-applied",
 }
 NOTES = {
+    "C12-4": "not caught, and deliberately not chased: `DefaultMailbox::has_mailbox()` is a derived predicate without an independent specification (the seeding agent itself notes that which parenthesisation is intended is arguable); the two formulas differ only for an EEPROM whose protocol word is zero while its send mailbox size is not. C12 compares the mailbox settings the EEPROM encodes field by field (offsets, sizes, protocols), on which the change has no effect",
     "C20-4": "not caught by C20, by construction: the change misdirects the second LRW of a split cycle whether or not other tasks run, so a task alone and the task among others misbehave identically and C20's differential oracle (same result as alone, same device state as one by one) sees no difference. It is a defect of C07/C08's clauses and is caught by C08 (outputs land elsewhere) at once",
     "C17-1": "after fix be506cc7 (junctions whose downstream ports are all taken are skipped) the agent's demonstration topology (two forks in series, demo.agent-original.diff) no longer distinguishes a front-to-back from a back-to-front search; demo.diff is a demonstration written afterwards on the tree C17's check reported (a fork nested inside the first branch of another fork)",
     "C16-2": "the demo's control test `c16_segmented_upload_well_behaved` encodes the segment layout the code expected before fix ad310639 and fails on HEAD with or without the change; the demonstration is `c16_segmented_upload_sends_more_than_announced`",
